@@ -200,6 +200,12 @@ impl util::FileServer for SimFileServer {
             return Ok(*handle);
         }
 
+        // `<std>/` names only the built-in library, never the disk
+        if filename.starts_with("<std>/") {
+            report_error(report, span, format!("file not found: `{}`", filename));
+            return Err(());
+        }
+
         // the existence probe (PathBuf::exists -> stat)
         let exists = {
             let mut inner = self.inner.borrow_mut();
